@@ -70,6 +70,14 @@ def special_docs():
     # parameters with escapes everywhere a quoted parameter can stand
     res.append(("quoted_escapes", 'JSIGHT 0.3\nINFO\n  Title "The \\"Cats\\" API and \\\\fileserver"\n  Version "1.\\"2\\""\nSERVER @s // a \\ b\n  BaseUrl "http://x/\\"q\\"/y"\n'
                 'GET "/a\\\\b/c"\n  Query "q=\\"1\\"&r=2"\n  {\n    "q": 1\n  }\n  200 any\nURL /r\n  Protocol json-rpc-2.0\n  Method "get\\"x\\"now"\n    Result\n    {}\n'))
+    # several items qualify for ONE diagnostic: which of them is named must not vary
+    res.append(("two_repeated_parameters", 'JSIGHT 0.3\nGET /c/{id}/f/{kind}/of/{id}/and/{kind}/x/{zz}/{zz}\n  200 any\n'))
+    res.append(("two_repeated_parameters_in_url", 'JSIGHT 0.3\nURL /c/{a}/{b}/{a}/{b}\n  GET\n    200 any\n'))
+    res.append(("three_undeclared_tags", 'JSIGHT 0.3\nGET /x\n  Tags @t1 @t2 @t3\n  200 any\n'))
+    res.append(("two_empty_parameters", 'JSIGHT 0.3\nGET /c/{}/d/{}\n  200 any\n'))
+    res.append(("three_unused_path_properties", 'JSIGHT 0.3\nGET /c/{id}\n  Path\n  {\n    "id": 1,\n    "u1": 1,\n    "u2": 2,\n    "u3": 3\n  }\n  200 any\n'))
+    res.append(("two_duplicate_types", 'JSIGHT 0.3\nTYPE @a any\nTYPE @b any\nTYPE @b any\nTYPE @a any\n'))
+    res.append(("two_similar_paths", 'JSIGHT 0.3\nGET /p/{x}\n  200 any\nGET /q/{y}\n  200 any\nGET /q/{z}\n  200 any\nGET /p/{w}\n  200 any\n'))
     res.append(("or_types", 'JSIGHT 0.3\nTYPE @a\n{\n  "x": @b | @c | @d\n}\nTYPE @b\n1\nTYPE @c\n"s"\nTYPE @d\ntrue\nGET /x\n  200 @a\n'))
     return res
 
